@@ -731,6 +731,29 @@ def c05(p, tier, replay):
             v.report(f["check"], {"t": ra["t"], "tb": rb["t"]},
                      "saved as %s, loaded as %s :: %s" % (vlib.show(ra["t"]), vlib.show(rb["t"]), f["detail"][:200]),
                      {"saved": ra["t"], "loaded": rb["t"], "value": ra["v"]})
+    # ---- the converse clause across versions: files of program i (Evo model, mode up) pass the gate of program j >= i
+    nevo = 0
+    if not replay:
+        ebuilt, _ = family_build(tier, ["evo"])
+        erecs = ebuilt["evo"][0]
+        sel = os.path.join(WORK, "evo_%s_c05.sel" % tier)
+        with open(sel, "w") as o:
+            for line in open(erecs):
+                if '"mode":"up"' in line:
+                    o.write(line)
+        eres = sel + ".res"
+        vlib.run_bin_resilient(binp, ["evo"], sel, eres, "c05.died")
+        erecords = open(sel).read().splitlines()
+        for line in open(eres):
+            rr = json.loads(line)
+            nevo += 1
+            for f in rr["fails"]:
+                if f["check"].startswith("tool."):
+                    raise ToolError("harness: %s %s" % (f["check"], f["detail"][:200]))
+                if f["check"].startswith("c05."):
+                    rec = json.loads(erecords[rr["i"]])
+                    v.report(f["check"], {"t": rec["d"], "i": rec["i"], "j": rec["j"]},
+                             "%s written by program %d, loaded by program %d :: %s" % (vlib.show(rec["d"]), rec["i"], rec["j"], f["detail"][:200]), rec)
     # ---- header gate
     r = vlib.run_tlc("Container.tla", "Container.cfg", "container", workers=4, timeout=600)
     if r["violated"]:
@@ -749,7 +772,8 @@ def c05(p, tier, replay):
                 "loaded_as": [{"type": vlib.show(records[j + 1]["t"]), "class": c} for j, c in enumerate(records[1]["classes"][:6])]}]
     cov = {"states": (stats["distinct"] if stats else 0) + r["stats"]["distinct"],
            "transitions": (stats["generated"] if stats else 0) + r["stats"]["generated"],
-           "traces_validated_against_impl": npairs + nh, "evaluations": npairs + nh,
+           "traces_validated_against_impl": npairs + nh + nevo, "evaluations": npairs + nh + nevo,
+           "evolved_files_through_the_gate": nevo,
            "distinct_nontrivial": sum(n for c, n in classes.items() if c != "accept"),
            "rule": "every ordered pair (type saved, type loaded) of the gate catalogue, classified by GateMC.tla as accept (same wire-relevant schema tree), "
                    "reject (different byte-level layout) or dontcare (same bytes, different grouping), replayed through the plain and the bzip2 container; "
